@@ -200,7 +200,7 @@ RAISEDV == "#-1"
 #! GROUPOF
   ELSE IF o \in Signals THEN "sigw"
   ELSE IF o \in MSignals THEN (IF fld = "counter" THEN "msc" ELSE "msh")
-  ELSE IF o \in NodeNames THEN (IF fld = "next" THEN "nnext" ELSE "ndata")
+  ELSE IF o \in NodeNames /\ MSignals # {} THEN (IF fld = "next" THEN "nnext" ELSE "ndata")
 #! GROUPVAL
     [] g = "sigw" -> sigw
     [] g = "msc" -> msc
@@ -208,7 +208,7 @@ RAISEDV == "#-1"
     [] g = "nnext" -> <<nnext, freed>>
     [] g = "ndata" -> <<ndata, freed>>
 #! FAITHFUL
-, "sigw", "msc", "msh", "nnext", "ndata"
+} \cup (IF MSignals = {} THEN {} ELSE {"nnext", "ndata"}) \cup {"sigw", "msc", "msh"
 #! FNPROC
 ,
            fiber_signal_wait |-> {"sig_wait"},
